@@ -65,30 +65,54 @@ type keyAcc struct {
 }
 
 var keyAccs = []keyAcc{
-	{"kb.material", "sd sk pu pr sp pg", false, func(pl *payloads.GetResponsePayload) string { _, err := kbOf(pl.Object).GetMaterial(); return errCls(err) }},
+	{"kb.material", "sd sk pu pr sp pg", false, func(pl *payloads.GetResponsePayload) string {
+		_, err := kbOf(pl.Object).GetMaterial()
+		return errCls(err)
+	}},
 	{"kb.bytes", "sd sk pu pr sp pg", false, func(pl *payloads.GetResponsePayload) string { _, err := kbOf(pl.Object).GetBytes(); return errCls(err) }},
 	{"kb.attrs", "sd sk pu pr sp pg", false, func(pl *payloads.GetResponsePayload) string {
 		return fmt.Sprintf("ok %d", len(kbOf(pl.Object).GetAttributes()))
 	}},
-	{"secret.data", "sd", false, func(pl *payloads.GetResponsePayload) string { _, err := pl.Object.(*kmip.SecretData).Data(); return errCls(err) }},
+	{"secret.data", "sd", false, func(pl *payloads.GetResponsePayload) string {
+		_, err := pl.Object.(*kmip.SecretData).Data()
+		return errCls(err)
+	}},
 	{"sym.material", "sk", false, func(pl *payloads.GetResponsePayload) string {
 		_, err := pl.Object.(*kmip.SymmetricKey).KeyMaterial()
 		return errCls(err)
 	}},
-	{"pub.rsa", "pu", false, func(pl *payloads.GetResponsePayload) string { k, err := pl.Object.(*kmip.PublicKey).RSA(); return dynCls(k, err) }},
-	{"pub.ecdsa", "pu", false, func(pl *payloads.GetResponsePayload) string { k, err := pl.Object.(*kmip.PublicKey).ECDSA(); return dynCls(k, err) }},
+	{"pub.rsa", "pu", false, func(pl *payloads.GetResponsePayload) string {
+		k, err := pl.Object.(*kmip.PublicKey).RSA()
+		return dynCls(k, err)
+	}},
+	{"pub.ecdsa", "pu", false, func(pl *payloads.GetResponsePayload) string {
+		k, err := pl.Object.(*kmip.PublicKey).ECDSA()
+		return dynCls(k, err)
+	}},
 	{"pub.crypto", "pu", false, func(pl *payloads.GetResponsePayload) string {
 		k, err := pl.Object.(*kmip.PublicKey).CryptoPublicKey()
 		return dynCls(k, err)
 	}},
-	{"pub.pem", "pu", true, func(pl *payloads.GetResponsePayload) string { _, err := pl.Object.(*kmip.PublicKey).PkixPem(); return errCls(err) }},
-	{"priv.rsa", "pr", false, func(pl *payloads.GetResponsePayload) string { k, err := pl.Object.(*kmip.PrivateKey).RSA(); return dynCls(k, err) }},
-	{"priv.ecdsa", "pr", false, func(pl *payloads.GetResponsePayload) string { k, err := pl.Object.(*kmip.PrivateKey).ECDSA(); return dynCls(k, err) }},
+	{"pub.pem", "pu", true, func(pl *payloads.GetResponsePayload) string {
+		_, err := pl.Object.(*kmip.PublicKey).PkixPem()
+		return errCls(err)
+	}},
+	{"priv.rsa", "pr", false, func(pl *payloads.GetResponsePayload) string {
+		k, err := pl.Object.(*kmip.PrivateKey).RSA()
+		return dynCls(k, err)
+	}},
+	{"priv.ecdsa", "pr", false, func(pl *payloads.GetResponsePayload) string {
+		k, err := pl.Object.(*kmip.PrivateKey).ECDSA()
+		return dynCls(k, err)
+	}},
 	{"priv.crypto", "pr", false, func(pl *payloads.GetResponsePayload) string {
 		k, err := pl.Object.(*kmip.PrivateKey).CryptoPrivateKey()
 		return dynCls(k, err)
 	}},
-	{"priv.pem", "pr", true, func(pl *payloads.GetResponsePayload) string { _, err := pl.Object.(*kmip.PrivateKey).Pkcs8Pem(); return errCls(err) }},
+	{"priv.pem", "pr", true, func(pl *payloads.GetResponsePayload) string {
+		_, err := pl.Object.(*kmip.PrivateKey).Pkcs8Pem()
+		return errCls(err)
+	}},
 	{"cert.x509", "ce", false, func(pl *payloads.GetResponsePayload) string {
 		_, err := pl.Object.(*kmip.Certificate).X509Certificate()
 		return errCls(err)
@@ -104,11 +128,19 @@ var keyAccs = []keyAcc{
 	{"get.pemcert", "*", false, func(pl *payloads.GetResponsePayload) string { _, err := pl.PemCertificate(); return errCls(err) }},
 	{"get.rsapriv", "*", false, func(pl *payloads.GetResponsePayload) string { k, err := pl.RsaPrivateKey(); return dynCls(k, err) }},
 	{"get.ecdsapriv", "*", false, func(pl *payloads.GetResponsePayload) string { k, err := pl.EcdsaPrivateKey(); return dynCls(k, err) }},
-	{"get.priv", "*", false, func(pl *payloads.GetResponsePayload) string { var k crypto.PrivateKey; k, err := pl.PrivateKey(); return dynCls(k, err) }},
+	{"get.priv", "*", false, func(pl *payloads.GetResponsePayload) string {
+		var k crypto.PrivateKey
+		k, err := pl.PrivateKey()
+		return dynCls(k, err)
+	}},
 	{"get.pempriv", "*", true, func(pl *payloads.GetResponsePayload) string { _, err := pl.PemPrivateKey(); return errCls(err) }},
 	{"get.rsapub", "*", false, func(pl *payloads.GetResponsePayload) string { k, err := pl.RsaPublicKey(); return dynCls(k, err) }},
 	{"get.ecdsapub", "*", false, func(pl *payloads.GetResponsePayload) string { k, err := pl.EcdsaPublicKey(); return dynCls(k, err) }},
-	{"get.pub", "*", false, func(pl *payloads.GetResponsePayload) string { var k crypto.PublicKey; k, err := pl.PublicKey(); return dynCls(k, err) }},
+	{"get.pub", "*", false, func(pl *payloads.GetResponsePayload) string {
+		var k crypto.PublicKey
+		k, err := pl.PublicKey()
+		return dynCls(k, err)
+	}},
 	{"get.pempub", "*", true, func(pl *payloads.GetResponsePayload) string { _, err := pl.PemPublicKey(); return errCls(err) }},
 }
 
